@@ -1,6 +1,7 @@
 import FrappyProofs.Lemmas.Config
 import FrappyProofs.Lemmas.Merge
 import FrappyProofs.Lemmas.WriteLoop
+import FrappyProofs.Lemmas.ConfigDsl
 import FrappyModel.Klass.ConfigDT
 import FrappyModel.Generated.C10
 /-
@@ -53,6 +54,15 @@ theorem accepted_clean (ops : Ops DT Val) (c : ClassDesc DT Val) (cfg : Cfg Val)
       rw [List.find?_eq_none] at hf
       have := hf d hd
       simp [hm, hnone] at this
+  | cmdProp n items k v hn hcfg hkv hbad =>
+    have hok := (Lemmas.ConfigDsl.cmds_ok ops cfg c.otherNames ⟨[], false⟩ rfl acc.cmRaised acc.cmErrs).2 n hn
+    rw [hcfg] at hok
+    simp only [addCommand] at hok
+    obtain ⟨f, hf, hs⟩ := Lemmas.ConfigDsl.cmdEntries_nil ops n items hok (k, v) hkv
+    simp only [hf] at hbad
+    cases hfv : f v with
+    | none => rw [hfv] at hs; cases hs
+    | some _ => rw [hfv] at hbad; cases hbad
   | param pd dt0 dflt items hpd hs hcfg hoff =>
     obtain ⟨outs, o, _, _, _, _, pk, hchk⟩ := accepted_param ops c cfg i acc wf pd hpd dt0 dflt hs
     rw [items_eq pd cfg items hcfg] at hoff
@@ -106,20 +116,189 @@ theorem config_applied (ops : Ops DT Val) (c : ClassDesc DT Val) (cfg : Cfg Val)
   | none => rw [hc] at hsome; cases hsome
   | some y => exact ⟨y, rfl, by rw [hv]; simp [conv, hc]⟩
 
-/-- configured own properties (readonly, visibility, export, …) of a parameter that is not a limit are stored as
-validated by the property's datatype -/
+/-- configured own properties (readonly, visibility, export, group, description, …): for EVERY parameter of an accepted
+configuration (limit parameters included) the parameter object carries `ownAfter` — the class values with every configured
+property set, in the order written, to its value as converted by the property's datatype -/
 theorem config_applied_own (ops : Ops DT Val) (c : ClassDesc DT Val) (cfg : Cfg Val) (i : Instance DT Val)
-    (h : applyConfig ops c cfg = .ok i) (pd : ParamDesc DT Val) (dt0 : DT) (items : List (Name × Val))
-    (hpd : pd ∈ c.params) (hdt : pd.dt = some dt0) (hlim : pd.limit = none)
-    (hcfg : lookup pd.name cfg = some (.acc items) ∨ (lookup pd.name cfg = none ∧ items = [])) :
-    ∃ p ∈ i.params, p.name = pd.name ∧ ∀ a, applyEntries ops (classAcc pd) items = some a → p.own = a.own := by
+    (h : applyConfig ops c cfg = .ok i) (pd : ParamDesc DT Val) (hpd : pd ∈ c.params) :
+    ∃ p ∈ i.params, p.name = pd.name ∧ p.own = ownAfter ops pd.own ((cfgOf pd.name cfg).getD []) := by
   have acc := accepted_of_ok ops c cfg i h
   obtain ⟨outs, hrun, hi, _, herrs, _⟩ := accepted_run ops c cfg i acc
   obtain ⟨insts', o, hadd, ho⟩ := run_mem ops cfg c.params [] outs hrun pd hpd
-  have hst := startAcc_own ops insts' pd hlim
-  have pk := (param_ok ops insts' pd dt0 _ items o (by rw [hst]; simp [classAcc, hdt]) hcfg hadd (herrs o ho)).2
-  rw [hst] at pk
-  exact ⟨o.inst, by rw [hi]; exact List.mem_map_of_mem ho, addParam_name ops _ _ _ _ hadd, pk⟩
+  have hitems := addParam_items ops insts' pd cfg o hadd
+  obtain ⟨a, ha⟩ := Lemmas.ConfigDsl.addParam_entries ops insts' pd _ _ o hitems hadd
+  refine ⟨o.inst, by rw [hi]; exact List.mem_map_of_mem ho, addParam_name ops _ _ _ _ hadd, ?_⟩
+  have hown : o.inst.own = a.own := by
+    -- `o` is what `_handle_writes` made of `a`: own properties untouched
+    have hw : ∀ a', (handleWrites ops pd a').inst.own = a'.own := by
+      intro a'
+      unfold handleWrites
+      split
+      · rfl
+      · split
+        · rfl
+        · split
+          · simp only [startFromDefault]; split <;> rfl
+          · rfl
+    rcases hitems with he | ⟨he, hnil⟩
+    · rw [he] at hadd
+      simp only [addParam, ha, PRes.done.injEq] at hadd
+      rw [← hadd]; exact hw a
+    · rw [he] at hadd
+      simp only [addParam, PRes.done.injEq] at hadd
+      rw [hnil] at ha
+      simp only [applyEntries, Option.some.injEq] at ha
+      rw [← hadd, ← ha]; exact hw _
+  rw [hown, Lemmas.ConfigDsl.applyEntries_own ops _ _ a ha, (startAcc_value ops insts' pd).2]
+
+/-! ## module properties -/
+
+theorem applyModProp_given (d : ModPropDesc Val) (cfg : Cfg Val) (v : Val) (hg : propGiven d cfg = some v) :
+    applyModProp d (lookup d.name cfg) = match d.validate v with | some v' => .set v' | none => .bad := by
+  unfold propGiven at hg
+  cases hl : lookup d.name cfg with
+  | none => simp [hl] at hg
+  | some e =>
+    rw [hl] at hg
+    cases e with
+    | prop pc =>
+      cases pc with
+      | bare v0 => simp only [Option.some.injEq] at hg; subst hg; rfl
+      | dict ov => simp only at hg; subst hg; rfl
+    | acc items => simp only at hg; simp only [applyModProp, hg]; cases d.validate v <;> rfl
+
+/-- "each configured module property … is applied to that instance": in an accepted configuration of a well-formed
+class, the value the configuration gives for a module property — bare, as `Param(v)` or in a dict — converted by the
+property's datatype is the value the instance has.  (Holds for every instance built: `applyConfig` only reads `cfg`.) -/
+theorem modprops_applied (ops : Ops DT Val) (c : ClassDesc DT Val) (cfg : Cfg Val) (i : Instance DT Val)
+    (wf : WellFormed c) (h : applyConfig ops c cfg = .ok i) (d : ModPropDesc Val) (hd : d ∈ c.modProps) (v : Val)
+    (hg : propGiven d cfg = some v) :
+    ∃ v', d.validate v = some v' ∧ lookup d.name i.modProps = some v' := by
+  have acc := accepted_of_ok ops c cfg i h
+  have hok := ((modProps_ok cfg c.modProps ⟨[], [], false⟩ rfl acc.mpRaised acc.mpErrs).2 d hd).2
+  have hap := applyModProp_given d cfg v hg
+  cases hv : d.validate v with
+  | none => rw [hv] at hap; rw [hap] at hok; rcases hok with h1 | ⟨_, h1⟩ <;> cases h1
+  | some v' =>
+    rw [hv] at hap
+    refine ⟨v', rfl, ?_⟩
+    rw [acc.inst]
+    exact Lemmas.ConfigDsl.modProps_value cfg d v' hap c.modProps ⟨[], [], false⟩ rfl acc.mpRaised wf.propNames hd rfl
+
+/-! ## optional accessibles: declared in a base class, not implemented by the class -/
+
+/-- the constructor's loop over `accessibles` (with its `continue` for optional ones) is the loop over the implemented
+accessibles, and it takes out of `cfgdict` only entries of implemented accessibles -/
+theorem optional_skipped (ops : Ops DT Val) (ds : List (AccDecl DT Val)) (cfg : Cfg Val) :
+    (accLoop ops ds cfg).out = applyParams ops (implemented ds) cfg ∧
+    ∀ k ∈ (accLoop ops ds cfg).popped, k ∈ (implemented ds).map (·.name) := by
+  refine ⟨Lemmas.ConfigDsl.accLoop_fold ops cfg ds _, fun k hk => ?_⟩
+  rcases Lemmas.ConfigDsl.accLoop_popped ops cfg ds _ k hk with h | h
+  · cases h
+  · exact h
+
+/-- a cfg entry naming an optional accessible which the class does not implement (and which is not the name of
+anything else the class has) is never consumed by the loop and the configuration is rejected -/
+theorem optional_cfg_rejected (ops : Ops DT Val) (mp : List (ModPropDesc Val)) (ds : List (AccDecl DT Val))
+    (other : List Name) (cfg : Cfg Val) (wf : WellFormed (⟨mp, implemented ds, other⟩ : ClassDesc DT Val))
+    (d : AccDecl DT Val) (_hd : d ∈ ds) (_hopt : d.optional = true) (hcfg : d.desc.name ∈ cfg.map (·.1))
+    (hnot : d.desc.name ∉ knownNames (⟨mp, implemented ds, other⟩ : ClassDesc DT Val)) :
+    d.desc.name ∉ (accLoop ops ds cfg).popped ∧
+    ∃ es, applyConfig ops ⟨mp, implemented ds, other⟩ cfg = .error es ∧ es ≠ [] := by
+  refine ⟨fun hp => hnot ?_, rejected_whole ops _ cfg wf (.unknownName d.desc.name hcfg hnot)⟩
+  have := (optional_skipped ops ds cfg).2 _ hp
+  simp only [knownNames, List.mem_append]
+  exact Or.inl (Or.inr this)
+
+/-! ## the configuration DSL -/
+
+open Lemmas.ConfigDsl in
+/-- `dsl_faithful`: the dict `Mod(name, cls, description, args…)` builds (`Param.__init__`, the wrapping of bare values,
+the `Group` loop) is the module configuration the written text stands for (`specCfg`) — for every well-written
+argument list (distinct keywords, none called `description`, no `Param(v, value=…)`, every group member has an
+argument of its own).  In particular every written value, whatever it is (`None`, `0`, `''` …), is in the dict under
+`value`, and `g=Group('a', 'b')` sets `group` of `a` and of `b` and of nothing else. -/
+theorem dsl_faithful (mkStr : Name → Val) (descr : Val) (args : List (Name × DslArg Val))
+    (ok : WrittenOk args) (hg : GroupsOk args) :
+    modDict mkStr descr args = some (specCfg mkStr descr args) := by
+  have hfold := modArgs_fold args [("description", Entry.prop (PropCfg.bare descr))] ok.keys
+    (fun k hk => by
+      have : "description" ≠ k := fun he => ok.noDescr (he ▸ hk)
+      simp [lookup, this])
+    ok.noValueKw
+  simp only [List.singleton_append] at hfold
+  -- the dict after the first loop, its keys are distinct
+  have hsub := plain_keys_sublist args
+  have hnd : ((("description", Entry.prop (PropCfg.bare descr)) :: args.filterMap plainEntry).map (·.1)).Nodup := by
+    simp only [List.map_cons, List.nodup_cons]
+    exact ⟨fun h => ok.noDescr (hsub.subset h), hsub.nodup ok.keys⟩
+  -- every member of every group has a Param dict there
+  have hmem : ∀ g ∈ groupsOf args, ∀ m ∈ g.2, ∃ items,
+      lookup m (("description", Entry.prop (PropCfg.bare descr)) :: args.filterMap plainEntry) = some (.acc items) := by
+    intro g hgm m hm
+    obtain ⟨a, ha, hw⟩ := hg g.1 g.2 (mem_groupsOf args g hgm) m hm
+    cases hwi : writtenItems a with
+    | none => rw [hwi] at hw; cases hw
+    | some items =>
+      refine ⟨items, lookup_of_mem _ m _ hnd (List.mem_cons_of_mem _ ?_)⟩
+      rw [List.mem_filterMap]
+      exact ⟨(m, a), ha, by simp [plainEntry, hwi]⟩
+  obtain ⟨S', h1, h2⟩ := groups_fold mkStr _ hnd (groupsOf args) (fun _ => none) hmem
+  have hid : (("description", Entry.prop (PropCfg.bare descr)) :: args.filterMap plainEntry).map (upd mkStr (fun _ => none))
+      = ("description", Entry.prop (PropCfg.bare descr)) :: args.filterMap plainEntry := by
+    rw [List.map_congr_left (fun kv _ => upd_none mkStr kv)]; simp
+  unfold modDict
+  rw [hfold, ← hid, h1]
+  -- the group assignment reached is the one the specification reads off the text
+  have hS : ∀ k, S' k = groupFor args k := fun k => by rw [h2 k, groupFor_groupsOf]; rfl
+  simp only [specCfg, List.map_cons, Option.some.injEq, List.cons.injEq]
+  refine ⟨rfl, ?_⟩
+  rw [List.map_filterMap]
+  apply filterMap_ext
+  intro kv _
+  unfold plainEntry
+  cases writtenItems kv.2 with
+  | none => rfl
+  | some items => simp [upd, hS]
+
+open Lemmas.ConfigDsl in
+/-- the check the driver runs on every written module implies the hypotheses of `dsl_faithful` -/
+theorem writtenOkB_sound (args : List (Name × DslArg Val)) (h : writtenOkB args = true) :
+    WrittenOk args ∧ GroupsOk args := by
+  simp only [writtenOkB, Bool.and_eq_true, decide_eq_true_eq, Bool.not_eq_true', List.all_eq_true] at h
+  obtain ⟨⟨⟨h1, h2⟩, h3⟩, h4⟩ := h
+  refine ⟨⟨h1, fun hm => ?_, fun k v kwds hk => ?_⟩, fun g ms hg m hm => ?_⟩
+  · have : (args.map (·.1)).contains "description" = true := by simpa using hm
+    rw [this] at h2; cases h2
+  · have := h3 _ hk
+    simpa using this
+  · have := h4 _ hg
+    simp only [List.all_eq_true, List.any_eq_true, Bool.and_eq_true, beq_iff_eq] at this
+    obtain ⟨kv', hkv', hn, hw⟩ := this m hm
+    exact ⟨kv'.2, by rw [← hn]; exact hkv', hw⟩
+
+/-- the check the driver runs on every class description implies `WellFormed`, the hypothesis of the theorems -/
+theorem wellFormedB_sound (c : ClassDesc DT Val) (h : wellFormedB c = true) : WellFormed c := by
+  simp only [wellFormedB, Bool.and_eq_true, decide_eq_true_eq, List.all_eq_true, Bool.or_eq_true, Bool.not_eq_true',
+    bne_iff_ne, ne_eq, Option.isNone_iff_eq_none] at h
+  obtain ⟨⟨h1, h2⟩, h3⟩ := h
+  refine ⟨h1, h2, fun pd hpd hl b hb hn => ?_⟩
+  rcases h3 pd hpd with h' | h'
+  · rw [hl] at h'; cases h'
+  · rcases h' b hb with h'' | h''
+    · exact absurd hn h''
+    · exact h''
+
+/-- end to end, from the text of a configuration file: a well-written module whose text contains one of the errors of
+the statement (read by the specification: `specCfg`) — e.g. a parameter written `p=None`, `p=Param(None, max=20)` where
+`None` is not a value of the datatype — is rejected, whatever the class -/
+theorem written_config_rejected (ops : Ops DT Val) (c : ClassDesc DT Val) (wf : WellFormed c) (mkStr : Name → Val)
+    (descr : Val) (args : List (Name × DslArg Val)) (hw : writtenOkB args = true)
+    (h : Offence ops c (specCfg mkStr descr args)) :
+    ∃ cfg es, modDict mkStr descr args = some cfg ∧ applyConfig ops c cfg = .error es ∧ es ≠ [] := by
+  obtain ⟨ok, gok⟩ := writtenOkB_sound args hw
+  obtain ⟨es, h1, h2⟩ := rejected_whole ops c _ wf h
+  exact ⟨_, es, dsl_faithful mkStr descr args ok gok, h1, h2⟩
 
 /-! ## written exactly once, before the first poll -/
 
@@ -355,6 +534,8 @@ def toyOps : Ops (Int × Int) Int :=
     checkDT := fun dt => decide (dt.1 ≤ dt.2),
     dtDefault := fun dt => dt.1,
     ownProp := fun k => if k = "readonly" then some (fun v => if v = 0 ∨ v = 1 then some v else none) else none,
+    cmdProp := fun k => if k = "visibility" then some (fun v => if 1 ≤ v ∧ v ≤ 3 then some v else none) else none,
+    cmdRaises := fun _ v => decide (100 ≤ v),
     limitDT := fun _ dt => dt,
     limitDefault := fun _ dt => dt.2 }
 
@@ -398,6 +579,9 @@ example : ∃ i, applyConfig toyOps exClass exCfg = .ok i ∧ (exClass.params.ma
 theorem exClass_wf : WellFormed exClass :=
   ⟨by decide, by decide, by intro pd hpd hl; simp [exClass, exParam] at hpd; subst hpd; simp at hl⟩
 
+/-- `config_applied_own` on the example: `readonly=1` from the cfg is what the parameter object carries -/
+example : ownAfter toyOps exParam.own ((cfgOf "pa" exCfg).getD []) = [("readonly", 1)] := by decide
+
 /-- rejected: an unknown name -/
 example : Offence toyOps exClass (exCfg ++ [("zz", .prop (.bare 4))]) :=
   .unknownName "zz" (by decide) (by decide)
@@ -415,6 +599,17 @@ example : Offence toyOps exClass [("description", .prop (.bare 7)), ("pa", .acc 
 /-- an unknown parameter property is an offence of the proved kind -/
 example : Offence toyOps exClass [("description", .prop (.bare 7)), ("pa", .acc [("nosuch", 1)])] :=
   .param exParam (0, 10) (some 1) [("nosuch", 1)] (List.mem_singleton.2 rfl) rfl (Or.inl rfl) (.badProp rfl)
+
+/-- a command configured with an unknown property, or an ill-typed one, is an offence … -/
+example : Offence toyOps { exClass with otherNames := ["go"] } (exCfg ++ [("go", .acc [("visibility", 2), ("nosuch", 1)])]) :=
+  .cmdProp "go" [("visibility", 2), ("nosuch", 1)] "nosuch" 1 (List.mem_singleton.2 rfl) rfl (by simp) rfl
+
+/-- … and the model reports it (collected, not raised); a well-typed property of a command is accepted -/
+example : (match applyConfig toyOps { exClass with otherNames := ["go"] } (exCfg ++ [("go", .acc [("visibility", 2), ("nosuch", 1)])]),
+      applyConfig toyOps { exClass with otherNames := ["go"] } (exCfg ++ [("go", .acc [("visibility", 9)])]),
+      applyConfig toyOps { exClass with otherNames := ["go"] } (exCfg ++ [("go", .acc [("visibility", 2)])]) with
+    | .error e1, .error e2, .ok _ => e1 == [.unknownProp "go" "nosuch"] && e2 == [.badValue "go" "visibility"]
+    | _, _, _ => false) = true := by decide
 
 def exLimit : ParamDesc (Int × Int) Int :=
   { name := "pa_max", dt := none, limit := some .max, base := "pa", value := none, default := none,
@@ -446,6 +641,82 @@ example : (match applyConfig toyOps exClassL [("description", .prop (.bare 7)), 
     | .ok i => i.params.map (fun p => (p.name, p.dt, p.value)) ==
         [("pa", some (0, 10), some 1), ("pa_max", some (0, 5), some 10)]
     | .error _ => false) = true := by decide
+
+/-- `modprops_applied` is not vacuous: the configured description is on the instance -/
+example : ∃ i, applyConfig toyOps exClass exCfg = .ok i ∧
+    propGiven (⟨"description", some, true, none⟩ : ModPropDesc Int) exCfg = some 7 ∧
+    lookup "description" i.modProps = some 7 := ⟨_, rfl, rfl, rfl⟩
+
+/-- a base class declares `ramp` as optional, the class does not implement it -/
+def exDecls : List (AccDecl (Int × Int) Int) := [⟨exParam, false⟩, ⟨{ exParam with name := "ramp" }, true⟩]
+
+example : implemented exDecls = [exParam] := rfl
+
+/-- the hypotheses of `optional_cfg_rejected` are met: `ramp=…` in the cfg of the class without `ramp` … -/
+example : (⟨{ exParam with name := "ramp" }, true⟩ : AccDecl (Int × Int) Int) ∈ exDecls ∧
+    "ramp" ∈ (exCfg ++ [("ramp", Entry.acc [("value", 5)])] : Cfg Int).map (·.1) ∧
+    "ramp" ∉ knownNames (⟨exClass.modProps, implemented exDecls, []⟩ : ClassDesc (Int × Int) Int) :=
+  ⟨by simp [exDecls], by decide, by decide⟩
+
+/-- … and it is reported as a name that does not exist (the loop has not taken it out of cfgdict) -/
+example : (match applyConfig toyOps ⟨exClass.modProps, implemented exDecls, []⟩ (exCfg ++ [("ramp", .acc [("value", 5)])]) with
+    | .error es => es == [.unknownNames ["ramp"]] && !(accLoop toyOps exDecls (exCfg ++ [("ramp", .acc [("value", 5)])])).popped.contains "ramp"
+    | .ok _ => false) = true := by decide
+
+/-- a module as written: `Mod('m', cls, 7, pa=Param(-999, max=20), pb=3, pc=Param(min=1))` — the written value of `pa`
+(here -999, "a value of the wrong type", think of `None`) IS in the dict, after the keywords -/
+def exArgs : List (Name × DslArg Int) :=
+  [("pa", .param (some (-999)) [("max", 20)]), ("pb", .bare 3), ("pc", .param none [("min", 1)])]
+
+theorem exArgs_ok : Lemmas.ConfigDsl.WrittenOk (exArgs ++ [("g", .group ["pa", "pc"])]) :=
+  ⟨by decide, by decide, by
+    intro k v kwds h
+    simp only [exArgs, List.cons_append, List.nil_append, List.mem_cons, Prod.mk.injEq, List.not_mem_nil, or_false] at h
+    rcases h with ⟨_, h⟩ | ⟨_, h⟩ | ⟨_, h⟩ | ⟨_, h⟩
+    · cases h; rfl
+    · cases h
+    · cases h
+    · cases h⟩
+
+/-- the hypotheses of `dsl_faithful` are met by a module written with `Param(v, k=…)`, a bare value, `Param(k=…)` and a group -/
+theorem exArgs_groups : Lemmas.ConfigDsl.GroupsOk (exArgs ++ [("g", .group ["pa", "pc"])]) := by
+  intro g ms h m hm
+  simp only [exArgs, List.cons_append, List.nil_append, List.mem_cons, Prod.mk.injEq, List.not_mem_nil, or_false] at h
+  rcases h with ⟨_, h⟩ | ⟨_, h⟩ | ⟨_, h⟩ | ⟨_, h⟩
+  · cases h
+  · cases h
+  · cases h
+  · cases h
+    simp only [List.mem_cons, List.not_mem_nil, or_false] at hm
+    rcases hm with rfl | rfl
+    · exact ⟨_, List.mem_cons_self, rfl⟩
+    · exact ⟨.param none [("min", 1)], by simp [exArgs], rfl⟩
+
+example : groupsOf exArgs = [] ∧ modDict (fun _ => 0) 7 exArgs = some
+    [("description", .prop (.bare 7)), ("pa", .acc [("max", 20), ("value", -999)]), ("pb", .acc [("value", 3)]),
+     ("pc", .acc [("min", 1)])] := ⟨rfl, rfl⟩
+
+example : writtenOkB (exArgs ++ [("g", .group ["pa", "pc"])]) = true ∧ wellFormedB exClassL = true := by decide
+
+/-- the hypothesis of `written_config_rejected` is met: the written `-999` is an ill-typed value by the specification -/
+example : Offence toyOps exClass (specCfg (fun _ => 0) 7 [("pa", .param (some (-999)) [("max", 20)])]) :=
+  .param exParam (0, 10) (some 1) [("max", 20), ("value", -999)] (List.mem_singleton.2 rfl) rfl (Or.inl rfl)
+    (.badValue (0, 20) (-999) rfl (Or.inl rfl) rfl)
+
+/-- … so the module is rejected for the ill-typed value, end to end -/
+example : (match (modDict (fun _ => 0) 7 exArgs).map (applyConfig toyOps { exClass with params :=
+      [exParam, { exParam with name := "pb" }, { exParam with name := "pc" }] }) with
+    | some (.error es) => es == [.badValue "pa" "value"]
+    | _ => false) = true := by decide
+
+/-- the statement with groups on a concrete instance: `g=Group('pa', 'pc')` puts `group` into both dicts -/
+example : modDict (fun _ => 42) 7 (exArgs ++ [("g", .group ["pa", "pc"])]) =
+    some (specCfg (fun _ => 42) 7 (exArgs ++ [("g", .group ["pa", "pc"])])) ∧
+    cfgOf "pc" (specCfg (fun _ => 42) 7 (exArgs ++ [("g", .group ["pa", "pc"])])) = some [("min", 1), ("group", 42)] :=
+  ⟨rfl, rfl⟩
+
+/-- a group member without argument of its own: `KeyError`, the file does not load -/
+example : modDict (fun _ => 42) 7 (exArgs ++ [("g", .group ["zz"])]) = none := rfl
 
 /-- merging on a concrete example: three files, `b` defined in all of them, `c` only in the third -/
 example : mergeB (· == ·)
